@@ -9,25 +9,27 @@ MANIFEST = {
     'engine': 'E3',
     'category': 'fault_enumeration',
     'technique': 'exhaustive enumeration of all fault subsets x injection positions on real files and dictionaries, faulted and unaffected cells compared with the fault-free workbook',
-    'text': 'A workbook with a 3-cell dependency chain, an independent chain, a range aggregate and IFERROR/ISERROR/IFNA dependents is written to disk with every one of the 2^8 subsets '
-            'of injected faults (unknown function, _xlfn-prefixed unknown function, absent sheet, absent workbook file, zero-byte workbook file, undefined name, #REF! literal, '
-            'external-link index without target) at the head, middle and leaf of the chain (quick: all subsets at the middle, singles and pairs elsewhere), loaded with '
+    'text': 'A workbook with a 3-cell dependency chain, an independent chain, a range aggregate and IFERROR/ISERROR/IFNA dependents is written to disk with every one of the 2^11 subsets '
+            'of injected faults (unknown function, _xlfn-prefixed unknown function, absent sheet, absent workbook file, zero-byte workbook file, two different undefined names, #REF! literal, '
+            'external-link index without target, absent sheets of an existing linked workbook) at the head, middle and leaf of the chain (quick: all subsets at the middle, singles and pairs elsewhere), loaded with '
             'loads().finish() and calculated; loading/calculation must not raise, the faulted cell and its dependents must be error values of the stated kind, '
-            'handlers must intercept them, and every cell that does not depend on the fault must equal its fault-free value. The four faults expressible in a dictionary are '
-            'enumerated (2^4 x positions) through from_dict as well.',
+            'handlers must intercept them, and every cell that does not depend on the fault must equal its fault-free value. The five faults expressible in a dictionary are '
+            'enumerated (2^5 x positions) through from_dict as well.',
     'note': 'Fault-free values are computed by hand-written arithmetic in the check (the chain is linear). With several faults in one cell either error kind is accepted.',
 }
 RULE = 'case = (path, position, fault subset); non-trivial = subset non-empty and loaded+calculated; distinct = case key'
 ASSUMPTIONS = ['one workbook shape; fault kinds are those the statement lists']
 
-FAULTS = ['func', 'xlfn', 'sheet', 'book', 'unreadable', 'name', 'ref', 'link']
-DICT_FAULTS = ['func', 'xlfn', 'name', 'ref']
+FAULTS = ['func', 'xlfn', 'sheet', 'book', 'unreadable', 'name', 'ref', 'link', 'xsheetZ', 'xsheetA', 'name2']
+DICT_FAULTS = ['func', 'xlfn', 'name', 'ref', 'name2']
 EXPR = {
     'func': 'NOSUCHFUNC(A1)', 'xlfn': '_xlfn.NEWFUNC(A1)', 'sheet': 'MISSING!A1', 'book': "'[nofile.xlsx]Q'!A1",
     'unreadable': "'[empty.xlsx]Q'!A1", 'name': 'UNDEFNAME', 'ref': '#REF!', 'link': '[7]Q!A1',
+    # an absent sheet of an EXISTING, readable linked workbook (c.xlsx has sheets Alpha and Beta), sorting after / before them
+    'xsheetZ': "'[c.xlsx]Zeta'!A1", 'xsheetA': "'[c.xlsx]Aaa'!A1", 'name2': 'OTHERNAME',
 }
 KIND = {'func': ['#NAME?'], 'xlfn': ['#NAME?'], 'sheet': ['#REF!'], 'book': ['#REF!'], 'unreadable': ['#REF!'], 'name': ['#REF!', '#NAME?'],
-        'ref': ['#REF!'], 'link': ['#REF!', '#NAME?']}
+        'ref': ['#REF!'], 'link': ['#REF!', '#NAME?'], 'xsheetZ': ['#REF!'], 'xsheetA': ['#REF!'], 'name2': ['#REF!', '#NAME?']}
 POS = ['head', 'middle', 'leaf']
 P = "'[b.xlsx]S'!"
 
@@ -35,7 +37,7 @@ P = "'[b.xlsx]S'!"
 def formulas_for(pos, faults, qualify=False):
     """cell -> formula text. chain C1 -> C2 -> C3; clean chain B1 -> B2; dependents D*."""
     q = P if qualify else ''
-    extra = ''.join('+' + (EXPR[f] if not qualify else EXPR[f].replace('A1', P + 'A1').replace('UNDEFNAME', "'[b.xlsx]'!UNDEFNAME")) for f in faults)
+    extra = ''.join('+' + (EXPR[f] if not qualify else EXPR[f].replace('A1', P + 'A1').replace('UNDEFNAME', "'[b.xlsx]'!UNDEFNAME").replace('OTHERNAME', "'[b.xlsx]'!OTHERNAME")) for f in faults)
     c = {
         'B1': '=%sA1+%sA2' % (q, q), 'B2': '=%sB1*2' % q,
         'C1': '=%sA1+10' % q, 'C2': '=%sC1+1' % q, 'C3': '=%sC2+1' % q,
@@ -46,10 +48,18 @@ def formulas_for(pos, faults, qualify=False):
         'D1': '=SUM(%sC1:C3)' % q, 'D2': '=IFERROR(%sC3,7)' % q, 'D3': '=ISERROR(%sC3)' % q, 'D4': '=IFERROR(%s%s,7)+%sB2' % (q, tgt, q),
         'D5': '=IF(ISERR(%sC3),"e","v")' % q, 'D6': '=%sC1&"|"' % q, 'E1': '=%sB2+%sA2' % (q, q),
     })
+    # every fault intercepted on its own inside ONE formula
+    terms = [EXPR[f] if not qualify else EXPR[f].replace('A1', P + 'A1').replace('UNDEFNAME', "'[b.xlsx]'!UNDEFNAME").replace('OTHERNAME', "'[b.xlsx]'!OTHERNAME") for f in faults]
+    c['D7'] = '=' + '+'.join(['IFERROR(%s,3)' % t for t in terms] + ['%sA1' % q])
+    if not qualify:
+        # references into the existing linked workbook: never depend on any fault
+        c['E2'] = "='[c.xlsx]Alpha'!A1+'[c.xlsx]Beta'!A1"
+        c['E3'] = "=SUM('[c.xlsx]Alpha'!A1:A2)"
+
     return c, tgt
 
 
-def expected(pos, faults):
+def expected(pos, faults, path='file'):
     """cell -> ('n', v) | ('t', s) | ('b', x) | ('err', [kinds])"""
     tgt_i = POS.index(pos)
     chain = [11.0, 12.0, 13.0]
@@ -65,13 +75,19 @@ def expected(pos, faults):
     # ISERR is false for #N/A only; our faults give #REF!/#NAME?
     exp['D5'] = ('t', 'e' if bad else 'v')
     exp['D6'] = ('err', errs) if bad and tgt_i == 0 else ('t', '11|')
+    # an unimplemented function makes its whole cell #NAME? (only dependents can intercept it); every other
+    # fault is an ordinary error value already inside the formula
+    exp['D7'] = ('err', ['#NAME?']) if any(f in ('func', 'xlfn') for f in faults) else ('n', 3.0 * len(faults) + 1.0)
+    if path == 'file':
+        exp['E2'] = ('n', 70.0)
+        exp['E3'] = ('n', 35.0)
     return exp
 
 
 def judge(sol, pos, faults, path, fails):
     from xl.evalcell import classify
     import numpy as np
-    exp = expected(pos, faults)
+    exp = expected(pos, faults, path)
     desc = dict(path=path, pos=pos, faults='+'.join(faults) or 'none', nfaults=len(faults))
     for c, e in exp.items():
         v = sol.get(P + c)
@@ -85,7 +101,7 @@ def judge(sol, pos, faults, path, fails):
             elif g[1] not in e[1]:
                 fails.append(Fail('wrong-error-kind', got=g, exp=e[1], cell=c, **desc))
         elif g != e:
-            cls = 'damage-not-local' if c in ('B1', 'B2', 'E1', 'A1', 'A2') or (c.startswith('C') and e[0] == 'n') else 'dependent-wrong'
+            cls = 'damage-not-local' if c in ('B1', 'B2', 'E1', 'E2', 'E3', 'A1', 'A2') or (c.startswith('C') and e[0] == 'n') else 'dependent-wrong'
             fails.append(Fail(cls, got=g, exp=e, cell=c, **desc))
 
 
@@ -109,6 +125,12 @@ def run_case(case):
             with Scratch() as d:
                 wb.save(os.path.join(d, 'b.xlsx'))
                 open(os.path.join(d, 'empty.xlsx'), 'wb').close()
+                wc = openpyxl.Workbook()
+                wa = wc.active
+                wa.title = 'Alpha'
+                wa['A1'], wa['A2'] = 30, 5
+                wc.create_sheet('Beta')['A1'] = 40
+                wc.save(os.path.join(d, 'c.xlsx'))
                 sol = formulas.ExcelModel().loads(os.path.join(d, 'b.xlsx')).finish().calculate()
         else:
             cells, _ = formulas_for(pos, faults, qualify=True)
